@@ -198,21 +198,42 @@ def pOptDec : P (Option (Int × Nat)) := do
   | some "none" => do let _ ← tok; pure none
   | _ => do let m ← pInt; let s ← pNat; pure (some (m, s))
 
-partial def pExtEntries (t : ExtTable) : P ExtTable := do
+partial def pExtEntriesRaw (t : ExtTable) : P ExtTable := do
   match (← peek) with
   | some "f32" => do
     let _ ← tok; let a ← pHexNat; let b ← pHexNat
-    pExtEntries { t with f32 := (a, b) :: t.f32 }
+    pExtEntriesRaw { t with f32 := (a, b) :: t.f32 }
   | some "dparse" => do
     let _ ← tok; let s ← pStr; let r ← pOptDec
-    pExtEntries { t with dparse := (s, r) :: t.dparse }
+    pExtEntriesRaw { t with dparse := (s, r) :: t.dparse }
   | some "df64" => do
     let _ ← tok; let a ← pHexNat; let r ← pOptDec
-    pExtEntries { t with df64 := (a, r) :: t.df64 }
+    pExtEntriesRaw { t with df64 := (a, r) :: t.df64 }
   | some "rescale" => do
     let _ ← tok; let m ← pInt; let s ← pNat; let target ← pNat; let m' ← pInt; let s' ← pNat
-    pExtEntries { t with rescale := ((m, s, target), (m', s')) :: t.rescale }
+    pExtEntriesRaw { t with rescale := ((m, s, target), (m', s')) :: t.rescale }
   | _ => pure t
+
+/-- What the serializer theorems assume of `rust_decimal` (`ExtOK`, Lemmas/SerSoundMain.lean),
+    as a check on the shipped table: every decimal a `dparse` / `df64` entry answers has a
+    mantissa in `i128` and a scale below `2^63`, every `rescale` entry answers a mantissa in
+    `i128`.  (`rust_decimal` mantissas have 96 bits and scales are at most 28, so the tables the
+    harness records always pass.) -/
+def ExtTable.ok (t : ExtTable) : Bool :=
+  t.dparse.all (fun p => match p.2 with
+    | none => true
+    | some d => inI128 d.1 && decide (d.2 < 2 ^ 63)) &&
+  t.df64.all (fun p => match p.2 with
+    | none => true
+    | some d => inI128 d.1 && decide (d.2 < 2 ^ 63)) &&
+  t.rescale.all (fun p => inI128 p.2.1)
+
+/-- The table of a case, checked: a case whose table is outside the range above is refused
+    (`bad-case`), so every table the driver runs the model with satisfies `ExtTable.ok`
+    (`pExtEntries_ok`), hence `ExtOK` (`toExt_ExtOK`, Theorems/C01driver.lean). -/
+def pExtEntries (t : ExtTable) : P ExtTable := do
+  let r ← pExtEntriesRaw t
+  if r.ok then pure r else throw "ext table entry outside the i128 / i64 range"
 
 /-- `f64 as f32` through Lean's runtime floats (C cast semantics); the table, when present,
     takes precedence. -/
